@@ -15,7 +15,7 @@ translation scheme.  Anything outside the subset makes the translator fail loudl
 (0 with `--for Cxx` for a property other than C03, as in rs2v_loops.py)."""
 import re, sys, os
 sys.path.insert(0, os.path.dirname(os.path.abspath(__file__)))
-import rs2v_loops as L
+import rs2v_loops_v1 as L   # the parser/generator this translator was built on (frozen copy; rs2v_loops.py has since grown)
 
 REPO = os.environ.get("BNUM_REPO", "/repo")
 ROOT = os.path.dirname(os.path.dirname(os.path.abspath(__file__)))
